@@ -16,7 +16,7 @@ Record get_obs := {
   g_spy : bytes; g_rate : N; g_units : bytes
 }.
 
-Inductive step_kind := KPut | KDelete | KEvict | KRestart | KWriteBack.
+Inductive step_kind := KPut | KDelete | KEvict | KRestart | KWriteBack | KWb1.   (* KWb1: write-back of one cache, observed through so_ticked / so_tick_len / so_tick_saved *)
 
 Record step_obs := {
   so_kind : step_kind;
